@@ -2,7 +2,7 @@
    This file contains only statements closed by [exact <lemma>] and their assumptions. *)
 From Coq Require Import ZArith Reals List.
 From Coquelicot Require Import Coquelicot.
-From FF Require Import Base.Ops Inst.RInst Base.RAlg Model.Numeric Model.Consts Model.Tie.C01 Proofs.Foi Proofs.CMBase Proofs.CMIntegral Proofs.CMBound Proofs.CMSym Proofs.CMBessel.
+From FF Require Import Base.Ops Inst.RInst Base.RAlg Model.Numeric Model.Consts Model.Tie.C01 Proofs.Foi Proofs.CMBase Proofs.CMIntegral Proofs.CMBound Proofs.CMSym Proofs.CMBessel Proofs.MatAlg Proofs.Propagator Proofs.CMEvolution.
 Local Open Scope R_scope.
 
 (* Segment integral, masked branch: the model value is the integral of e^{i x t} over [0, dt]. *)
@@ -192,3 +192,26 @@ Print Assumptions C01_ff_diag_bound.
 Import ListNotations.
 Example C01_basis_orthonormal_satisfiable : basis_orthonormal 2 [[[1c; 0c]; [0c; 0c]]; [[0c; 0c]; [0c; 1c]]].
 Proof. exact basis_orthonormal_example. Qed.
+
+(* U(t) of C01_control_matrix_integral is literally the time-ordered evolution (link to C02, Proofs/Propagator.v):
+   for t in segment g (t_g <= t < t_{g+1}) the path pulse_U coincides with U_ g t = e^{-i H_g (t - t_g)} Q_g where
+   H_g = V_g diag(ev_g) V_g^dagger is Hermitian with the cached eigenpairs; U_ g solves i dU/dt = H_g U (entrywise
+   derivative, cderive), U_ 0 0 = 1, U_ g (t_g) = Q_g and U_ g (t_{g+1}) = Q_{g+1} (continuity across the edges;
+   Q = propagators of the package).  Hypotheses: equal lengths, every V_g unitary (eigh oracle), dt >= 0. *)
+Theorem C01_U_is_time_ordered_evolution : forall d evs Vs dts,
+  length Vs = length evs -> length dts = length evs ->
+  (forall g, (g < length evs)%nat -> funitary d (toF (nth g Vs nil))) ->
+  (forall g, (g < length dts)%nat -> 0 <= nth g dts 0) ->
+  forall nc j g t, (g < length evs)%nat ->
+  nth g (times RO dts) 0 <= t < nth (S g) (times RO dts) 0 ->
+  feq d (toF (pulse_U d (pulse_segs evs Vs dts nc j) (mid RO d) 0 t)) (U_ d evs Vs dts g t) /\
+  (forall i k, (i < d)%nat -> (k < d)%nat ->
+     cderive (fun s => U_ d evs Vs dts g s i k) t
+             (fscal (cneg RO (ci RO)) (fmul d (H_ d evs Vs g) (U_ d evs Vs dts g t)) i k)) /\
+  feq d (U_ d evs Vs dts 0 0) fid /\
+  feq d (U_ d evs Vs dts g (nth g (times RO dts) 0)) (toF (nth g (propagators RO d evs Vs dts) nil)) /\
+  feq d (U_ d evs Vs dts g (nth (S g) (times RO dts) 0)) (toF (nth (S g) (propagators RO d evs Vs dts) nil)) /\
+  fherm d (H_ d evs Vs g) /\
+  feq d (fmul d (H_ d evs Vs g) (toF (nth g Vs nil))) (fmul d (toF (nth g Vs nil)) (fdiagv (fun k => cofr RO (vg RO (nth g evs nil) k)))).
+Proof. exact pulse_U_evolution. Qed.
+Print Assumptions C01_U_is_time_ordered_evolution.
